@@ -18,7 +18,7 @@ CONSTANTS Modes,        \* subset of {"rb", "wal"}
 PStates == [rb  |-> <<"idle", "j_created", "j_synced", "page_written">>,
             wal |-> <<"idle", "w_locked", "frame_partial", "frame_commit">>]
 
-Ops == {"DBWrite", "DBTruncate", "DBRemove", "DBRemoveRace", "JCreate", "JWrite", "JZeroHeader", "JTruncate", "JRemove",
+Ops == {"DBWrite", "DBWriteCkpt", "DBTruncate", "DBRemove", "DBRemoveRace", "JCreate", "JWrite", "JZeroHeader", "JTruncate", "JRemove",
         "WCreate", "WHeader", "WFrame", "WTruncate", "WRemove", "WUnlockWrite", "Import", "ImportRace"}
 
 VARIABLES mode,      \* journal mode of the database
@@ -93,6 +93,8 @@ LoseHalt ==
 \* "reverts": accepted and the logical image changes (the defect TLC is meant to expose)
 React(op) ==
   CASE op = "DBWrite"      -> "eacces"        \* WriteDatabaseAt: !Writeable
+    [] op = "DBWriteCkpt"  -> "eacces"        \* the same by a connection that holds the WAL checkpoint lock (a SQLite checkpointer's
+                                              \* page write): the -shm locks give no authority over the database file
     [] op = "DBTruncate"   -> "harmless"      \* TruncateDatabase: only to the committed size (or refused)
     [] op = "DBRemove"     -> "eacces"        \* RootNode.Remove: !IsPrimary
     [] op = "DBRemoveRace" -> "refused"       \* DB.Drop that began with authority and lost it before its final step: rolled back
@@ -115,7 +117,7 @@ Applicable(op) ==
     [] op = "JCreate" -> mode = "rb"
     [] op = "DBRemoveRace" -> role = "demoted" /\ ps = "idle"
     [] op = "ImportRace" -> role = "demoted" /\ ps # "idle"
-    [] op \in {"WHeader", "WFrame", "WTruncate", "WRemove", "WCreate"} -> mode = "wal"
+    [] op \in {"WHeader", "WFrame", "WTruncate", "WRemove", "WCreate", "DBWriteCkpt"} -> mode = "wal"
     [] op = "WUnlockWrite" -> mode = "wal" /\ ps # "idle"
     [] OTHER -> TRUE
 
@@ -141,6 +143,6 @@ NoChangeWithoutAuthority ==
   [][ ~Writable => (img' = img /\ pos' = pos /\ logn' = logn) ]_vars
 \* page, journal and WAL writes are refused with the read-only permission error
 WritesAreEACCES ==
-  [][ (~Writable /\ last'.op \in {"DBWrite", "JWrite", "JZeroHeader", "WHeader", "WFrame"}) => last'.res = "eacces" ]_vars
+  [][ (~Writable /\ last'.op \in {"DBWrite", "DBWriteCkpt", "JWrite", "JZeroHeader", "WHeader", "WFrame"}) => last'.res = "eacces" ]_vars
 
 ====
